@@ -24,6 +24,9 @@ def build_file2(shape, seed=0, variant=0):
     cands = list(SIZED) + ([] if (il or trunc) else ["String"])
     xt = cands[h % len(cands)]
     yt = cands[(h // 37) % len(cands)]
+    if (h // 13) % 4 == 0:
+        # the files whose x carries a scaling take x's type from the types that scale exactly (float64 among them)
+        xt = sorted(SCALABLE)[(h // 53) % len(SCALABLE)]
     be = (h // 3) % 2 == 1
     list_absent = (h // 5) % 2 == 1     # a channel without data in a segment is listed "no data" (else: not listed)
     out = []
@@ -218,6 +221,12 @@ def replay_history_case(case):
         seq.append(parts)
     fresh[("file", "")] = seq
     f0.close()
+    for key_, seq_ in fresh.items():
+        for item in seq_:
+            for nm_, part in item.items():
+                if "unstable" in part:
+                    fails.append(({"kind": "fresh-stream", "stream": key_[0], "what": "chunk contents change when looked at again"},
+                                  {"shape": shape, "info": info, "channel": nm_, "chunk": part, "hex": e.data.hex()}))
 
     def fail(i, o, exp, got):
         fails.append(({"kind": "history", "op": o["op"], "iter_kind": o.get("kind", "")},
